@@ -970,22 +970,29 @@ func (u *Unit) runLoopCut(fr *frame, L *Loop, spec *LoopSpec, entries []edgeStat
 		}
 		rootedByCallees := !ws.allUnrooted
 		u.havocAll(head, fmt.Sprintf("loop %d: %s", L.Ordinal, ws.why))
-		if rootedByCallees {
-			rec := u.hids[head.Hid]
-			kept := func(f string) bool { return u.w.stableAt(f, u.fn, rec) != nil }
-			for _, fam := range sortedKeys(ws.fams) {
-				if !kept(fam) {
-					continue // havocked as a whole by havocAll
-				}
-				fw := ws.fams[fam]
-				for d := range fw.deps {
-					// the targets were located through family d: it must not change in the loop
-					if _, written := ws.fams[d]; written || !kept(d) {
-						fw.whole = true
-					}
-				}
-				applyFam(fam, u.heapGet(head, fam, fw.sort))
+		// havocAll carries over (a) private address-taken locals and private maps of this function (no callee
+		// can touch them) and (b) stable families when the havoc is rooted at the loop's havoc-all callees.
+		// The loop body ITSELF may write both: its own stores and the frames of its contracted callees are
+		// applied location-wise on top (a family that was not carried over is havocked as a whole anyway).
+		rec := u.hids[head.Hid]
+		kept := func(f string) bool {
+			if _, explicit := head.Heap[f]; explicit {
+				return true
 			}
+			return rootedByCallees && u.w.stableAt(f, u.fn, rec) != nil
+		}
+		for _, fam := range sortedKeys(ws.fams) {
+			if !kept(fam) {
+				continue
+			}
+			fw := ws.fams[fam]
+			for d := range fw.deps {
+				// the targets were located through family d: it must not change in the loop
+				if _, written := ws.fams[d]; written || !kept(d) {
+					fw.whole = true
+				}
+			}
+			applyFam(fam, u.heapGet(head, fam, fw.sort))
 		}
 	} else {
 		for _, fam := range sortedKeys(ws.fams) {
